@@ -768,13 +768,13 @@ func TestVerifC21(t *testing.T) {
 	for round := 0; round < rounds; round++ {
 		for j := 0; j < len(aboveDefault); j++ {
 			i := round*len(aboveDefault) + j
-			if !r.Want("above-default", i) || (light() && j != 0) {
+			if !r.Want("above-default", i) || (light() && i != 0) {
 				continue
 			}
 			rng := r.Rand("above-default", i)
 			c, probes := aboveDefault[j](rng)
 			if light() {
-				probes = probes[:min(3, len(probes))]
+				probes = probes[1:2] // -race: one 5 MiB exchange exactly at the raised limit
 			}
 			runCase(t, r, "above-default", i, c, probes, rng.Uint32())
 		}
